@@ -36,6 +36,56 @@ REL_TOL = Fraction(1, 10**12)
 
 # --------------------------------------------------------------------------- value encoding
 
+# The Python class of the container of a multi-objective output ("tuples/lists" of the property's return forms: every
+# instance of tuple or list).  A NumPy array is not one of them: HPOJob.standardize_output rejects it (TypeError).
+SEQ_KINDS = ("tuple", "list", "namedtuple", "tuple-subclass", "list-subclass")
+
+
+class ObjectiveTuple(tuple):
+    """a user's own tuple class"""
+
+
+class ObjectiveList(list):
+    """a user's own list class"""
+
+
+_NAMEDTUPLES = {}
+
+
+def make_seq(kind, xs):
+    """the components `xs` in a container of class `kind`"""
+    xs = list(xs)
+    if kind == "list":
+        return xs
+    if kind == "namedtuple":
+        import collections
+
+        if len(xs) not in _NAMEDTUPLES:
+            _NAMEDTUPLES[len(xs)] = collections.namedtuple("Objectives", [f"f{i}" for i in range(len(xs))])
+        return _NAMEDTUPLES[len(xs)](*xs)
+    if kind == "tuple-subclass":
+        return ObjectiveTuple(xs)
+    if kind == "list-subclass":
+        return ObjectiveList(xs)
+    return tuple(xs)
+
+
+def seq_kind(v):
+    """class of a container (None: not an instance of tuple / list)"""
+    if type(v) is tuple:
+        return "tuple"
+    if type(v) is list:
+        return "list"
+    if isinstance(v, ObjectiveTuple):
+        return "tuple-subclass"
+    if isinstance(v, ObjectiveList):
+        return "list-subclass"
+    if isinstance(v, tuple):
+        return "namedtuple" if hasattr(v, "_fields") else "tuple-subclass"
+    if isinstance(v, list):
+        return "list-subclass"
+    return None
+
 
 def enc(v):
     """Python value -> wire value (see Drivers/C04.lean)."""
@@ -57,9 +107,15 @@ def enc(v):
             return w
         return {"n": rat(v)}
     if isinstance(v, tuple):
-        return {"l": [enc(x) for x in v], "t": 1}
+        w = {"l": [enc(x) for x in v], "t": 1}
+        if type(v) is not tuple:
+            w["k"] = seq_kind(v)  # harness-only tag: the class of the container
+        return w
     if isinstance(v, list):
-        return {"l": [enc(x) for x in v]}
+        w = {"l": [enc(x) for x in v]}
+        if type(v) is not list:
+            w["k"] = seq_kind(v)
+        return w
     if isinstance(v, dict):
         return {"d": [[str(k), enc(x)] for k, x in v.items()]}
     raise HarnessError(f"cannot encode {type(v)}")
@@ -81,6 +137,8 @@ def dec(w):
         return getattr(np, w["ty"])(x) if w.get("ty") else x
     if "l" in w:
         xs = [dec(x) for x in w["l"]]
+        if w.get("k"):
+            return make_seq(w["k"], xs)
         return tuple(xs) if w.get("t") else xs
     if "d" in w:
         return {k: dec(x) for k, x in w["d"]}
@@ -189,6 +247,13 @@ def gen_meta(rng):
     return md
 
 
+def gen_container(rng, xs):
+    """the components in a container of one of the classes a run-function may use (half of them plain tuples)"""
+    r = rng.random()
+    kind = "tuple" if r < 0.5 else "list" if r < 0.7 else "namedtuple" if r < 0.8 else "tuple-subclass" if r < 0.9 else "list-subclass"
+    return make_seq(kind, xs)
+
+
 def gen_objective(rng, m, p_fail, kinds):
     """-> (python objective value, kind) ; kind in success / str / nonfin / nonfin-in-tuple"""
     if rng.random() < p_fail:
@@ -201,7 +266,7 @@ def gen_objective(rng, m, p_fail, kinds):
         if m > 1:
             xs = [gen_number(rng) for _ in range(m)]
             xs[rng.randrange(m)] = ty(rng.choice([float("nan"), float("inf"), float("-inf")]))
-            return (tuple(xs) if rng.random() < 0.7 else xs), "nonfin-in-tuple"
+            return gen_container(rng, xs), "nonfin-in-tuple"
         return float("nan"), "nonfin"
     if m == 1:
         return gen_number(rng), "success"
@@ -210,9 +275,9 @@ def gen_objective(rng, m, p_fail, kinds):
         xs = list(rng.choice([t for t in OVERFLOW_TUPLES if len(t) >= m] or OVERFLOW_TUPLES))[:m]
         while len(xs) < m:
             xs.append(rng.choice(EXTREMES[:7]))
-        return (tuple(xs) if rng.random() < 0.7 else xs), "success"
+        return gen_container(rng, xs), "success"
     xs = [gen_number(rng) for _ in range(m)]
-    return (tuple(xs) if rng.random() < 0.7 else xs), "success"
+    return gen_container(rng, xs), "success"
 
 
 def wrap_form(rng, obj):
@@ -302,6 +367,20 @@ def gen_unit_case(rng, force=None):
 
 
 # --------------------------------------------------------------------------- classification / fingerprints
+
+
+def obj_kind_wire(w):
+    """class of the container of the objectives inside an output in wire form (None: not a sequence)"""
+    if isinstance(w, dict) and "d" in w:
+        d = dict((k, v) for k, v in w["d"])
+        if "output" in d:
+            return obj_kind_wire(d["output"])
+        if "objective" not in d:
+            return None
+        w = d["objective"]
+    if isinstance(w, dict) and "l" in w:
+        return w.get("k") or ("tuple" if w.get("t") else "list")
+    return None
 
 
 def expected_objective(raw):
@@ -494,7 +573,8 @@ def unit_request(case, obs, old=False):
         spec = case["jobs"][idx]
         o = tg[idx]
         jobs.append({"id": o.get("id", idx), "args": spec["args"]["d"], "status": spec["status"],
-                     "meta0": spec["meta0"]["d"], "out": spec["out"], "tg": o.get("tg", {"n": "0/1"})})
+                     "meta0": spec["meta0"]["d"], "out": spec["out"], "tg": o.get("tg", {"n": "0/1"}),
+                     "kind": obj_kind_wire(spec["out"])})
     req = {"op": "scenario", "preset": case.get("preset"), "old": old, "jobs": jobs, "ops": case["ops"],
            "order": obs["order"]}
     nt = numtext_wire(obs.get("numtext", {}))
@@ -584,7 +664,7 @@ def _norm(w):
     """wire value with the harness-only type tags removed"""
     if w is None:
         return None
-    w = {k: v for k, v in w.items() if k not in ("i", "t", "f", "ty")}
+    w = {k: v for k, v in w.items() if k not in ("i", "t", "f", "ty", "k")}
     if "l" in w:
         w["l"] = [_norm(x) for x in w["l"]]
     if "d" in w:
@@ -776,6 +856,16 @@ def gen_search_case(rng, force=None):
             ev = "reuse"
         ncalls = rng.choice([1, 1, 1, 2] if nsearch > 1 else [1, 1, 1, 2, 3])
         searches.append({"evaluator": ev, "calls": [rng.randint(1, max(1, n // (ncalls * nsearch) + 1)) for _ in range(ncalls)]})
+    if force == "idle-search":
+        # a Search object on a log_dir that already holds results whose search() calls finish NO evaluation (the empty
+        # output sequence), possibly followed by one that finishes some again
+        if len(searches) < 2:
+            searches.append({"evaluator": rng.choice(EVAL_KINDS), "calls": [1]})
+        i = rng.randrange(1, len(searches))
+        searches[i]["calls"] = [0] * rng.choice([1, 1, 2])
+        if rng.random() < 0.5:
+            searches.insert(i + 1, {"evaluator": rng.choice(EVAL_KINDS), "calls": [rng.choice([1, 1, 2])]})
+        nsearch = len(searches)
     case = {"level": "search", "cls": "RandomSearch", "m": m, "outs": outs, "searches": searches,
             "num_workers": rng.choice([1, 1, 2, 3, 4]), "seed": rng.randint(0, 10**6),
             "profile": rng.random() < 0.15}
@@ -790,7 +880,7 @@ def gen_search_case(rng, force=None):
             sp["new_dir"] = True  # this Search uses another log_dir: no results.csv there
         if rng.random() < 0.15:
             sp["strict"] = True  # search(max_evals_strict=True)
-        if rng.random() < 0.08:
+        if rng.random() < 0.08 and sp["calls"]:
             sp["calls"][rng.randrange(len(sp["calls"]))] = 0  # search(max_evals=0): nothing is evaluated
     # all Search objects constructed before the first search() call (results.csv does not exist yet)
     if nsearch > 1 and rng.random() < 0.15:
@@ -1006,9 +1096,10 @@ def search_request(case, obs):
                 meta = j["meta"]
                 tg = dict((k, v) for k, v in meta).get("timestamp_gather", {"n": "0/1"})
                 ts = [[k, v] for k, v in meta if k == "timestamp_submit"]
+                mout = _model_out(case, lg, meta)
                 jobs.append({"id": j["id"], "args": j["args"]["d"],
                              "status": "RUNNING" if j["status"] == "DONE" else j["status"], "meta0": ts,
-                             "out": _model_out(case, lg, meta), "tg": tg})
+                             "out": mout, "tg": tg, "kind": obj_kind_wire(mout)})
             ops.append([len(new), fl])
         else:
             info = ev[1]
@@ -1080,6 +1171,15 @@ def compare_search(ck, case, obs, rep, marks):
         if mark is None or info["err"] is not None:
             continue
         step = rep["steps"][mark]
+        if "returns" in step and not info.get("flagged") and step["returns"] != (info["df"] is not None):
+            # (a call the oracle reports - e.g. rows returned for no evaluation - is not also a broken correspondence)
+            bad.append({"search": info["si"], "call": info["ci"], "search()_returns_a_table": {"model": step["returns"], "impl": info["df"] is not None}})
+            break
+        ck.count("returns:" + ("table" if info["df"] is not None else "None"))
+        if info["df"] is None and step.get("returns") is False:
+            # nothing written by this Search object, nothing handed back: a results.csv in the directory is another
+            # search's file (its content and its pareto_efficient column are that search's; keeping it intact is C15)
+            continue
         b = _compare_table(info["cells"], step["table"], step.get("pareto"))
         if b == [None]:
             ck.count("pareto:flags-not-compared(csv-round-trip-drift)")
@@ -1188,7 +1288,7 @@ def check_unit(ck, d, case, collect):
                 # the file rewritten by the Pareto step is still the table of the same evaluations
                 viol += [(c + "-after-pareto-rewrite", dt) for c, dt in oracle_table(obs["final"], fin, case["m"], need_meta=_need_meta(case))]
     if viol:
-        tags += _text_tags(case)
+        tags += _text_tags(case) + _seq_tags(case)
     collect.append(("unit", case, obs, tags, viol))
     return obs
 
@@ -1198,7 +1298,7 @@ def check_search(ck, d, case, collect):
     searches = _searches_of(case)
     viol, cur, objs_all, viol_objs = [], [], [], []
     cur_dumps, need_meta_calls = [], []
-    midflush, reused, kinds_used = False, False, []
+    midflush, reused, kinds_used, idle_viol = False, False, [], False
     calls = []  # (cells, fin) per finished search() call: for the verified Pareto checker
     for ev in obs["events"]:
         if ev[0] == "new_search":
@@ -1213,6 +1313,7 @@ def check_search(ck, d, case, collect):
             objs_all += [expected_objective(_job_record(case, obs, eidx, j)["raw"]) for j in new]
         else:
             info = ev[1]
+            info["flagged"] = True  # (reset below when this call was judged and found in order)
             if viol:
                 continue
             where = {"search_object": info["si"], "call": info["ci"], "evaluator": kinds_used[-1] if kinds_used else "?"}
@@ -1222,7 +1323,15 @@ def check_search(ck, d, case, collect):
                 reused = bool(kinds_used) and kinds_used[-1] == "reuse"
                 continue
             need_meta_calls.append(need_meta_from(cur_dumps))
-            for c, dt in oracle_table(info["cells"], cur, case["m"], need_meta=need_meta_calls[-1]):
+            if not cur and info["df"] is not None and len(info["df"]) > 1:
+                # "exactly one row per finished evaluation" for the empty set of evaluations: no evaluation of this Search
+                # object has finished, so search() has no row to show - whatever results.csv the directory holds
+                jc = info["df"][0].index("job_id") if "job_id" in info["df"][0] else None
+                viol.append(("rows-not-in-bijection-with-jobs",
+                             dict(where, detail={"rows": [r[jc] if jc is not None else "?" for r in info["df"][1:]], "jobs": [],
+                                                 "meaning": "search() returned rows although no evaluation of this Search object has finished"})))
+                idle_viol = True
+            for c, dt in oracle_table(info["cells"] if cur else None, cur, case["m"], need_meta=need_meta_calls[-1]):
                 viol.append((c, dict(where, detail=dt)))
             if info["cells"] and info["df"] is not None:
                 # the returned DataFrame is the file
@@ -1235,7 +1344,8 @@ def check_search(ck, d, case, collect):
                             break
             elif cur and info["df"] is None:
                 viol.append(("no-dataframe-returned", where))
-            calls.append((info["cells"], list(cur)))
+            calls.append((info["cells"] if cur else None, list(cur)))
+            info["flagged"] = bool(viol)
             if viol:
                 # classification of the failing history: the evaluations of this Search object
                 viol_objs = [expected_objective(f["raw"]) for f in cur]
@@ -1255,8 +1365,10 @@ def check_search(ck, d, case, collect):
     tags = classify(viol_objs if viol else objs_all, case["m"], midflush)
     if reused:
         tags += ",reused-evaluator"
+    if idle_viol:
+        tags += ",no-evaluation-finished"
     if viol:
-        tags += _text_tags(case)
+        tags += _text_tags(case) + _seq_tags(case)
         if case.get("create_first") and len(searches) > 1:
             tags += ",objects-created-before-first-search"
         if any(sp.get("new_dir") for sp in searches[1:]) and reused:
@@ -1343,6 +1455,40 @@ def _text_tags(case):
     (`shrink`) — only the classes without which the failure disappears remain in a shrunk case."""
     strs = list(_case_strings(case))
     return "".join("," + cls + "-in-value" for cls in TEXT_CLASSES if any(_has_class(t, cls) for t in strs))
+
+
+def _case_outs(case):
+    return [j["out"] for j in case["jobs"]] if case["level"] == "unit" else list(case["outs"])
+
+
+def _seq_tags(case):
+    """input-class predicate about the container of multi-objective outputs: the classes other than the plain tuple that
+    occur.  Only reported with a violation; the shrinker first tries plain tuples everywhere, then plain lists (`shrink`),
+    so the tag of a shrunk case names a class the failure needs."""
+    kinds = sorted({k for k in (obj_kind_wire(w) for w in _case_outs(case)) if k not in (None, "tuple")})
+    return ",objectives-as-" + "+".join(kinds) if kinds else ""
+
+
+def _recontain_wire(w, kind):
+    """every sequence in a plain tuple / a plain list"""
+    if not isinstance(w, dict):
+        return w
+    w = dict(w)
+    if "l" in w:
+        w["l"] = [_recontain_wire(x, kind) for x in w["l"]]
+        w.pop("k", None)
+        w.pop("t", None)
+        if kind == "tuple":
+            w["t"] = 1
+    if "d" in w:
+        w["d"] = [[k, _recontain_wire(x, kind)] for k, x in w["d"]]
+    return w
+
+
+def _recontain_case(case, kind):
+    if case["level"] == "unit":
+        return dict(case, jobs=[dict(j, out=_recontain_wire(j["out"], kind)) for j in case["jobs"]])
+    return dict(case, outs=[_recontain_wire(w, kind) for w in case["outs"]])
 
 
 def _sanitize_wire(w, cls):
@@ -1533,6 +1679,15 @@ def shrink(case, still_fails):
     """greedy deletion of jobs / outputs while the same clause keeps failing, then every
     remaining output is replaced by the simplest one of its class when the failure persists"""
     cur = _shrink_delete(case, still_fails)
+    if cur["m"] > 1:
+        # a single objective when the failure does not depend on the arity
+        if cur["level"] == "unit":
+            cand = dict(cur, m=1, preset=None if cur.get("preset") is None else 1,
+                        jobs=[dict(j, out=_canonical_out(j["out"], 1)) for j in cur["jobs"]])
+        else:
+            cand = dict(cur, m=1, outs=[_canonical_out(w, 1) for w in cur["outs"]])
+        if still_fails(cand):
+            cur = cand
     m = cur["m"]
     # plainer text wherever the failure does not depend on it: everything at once, else class by class,
     # so that a special-character tag survives only if the failure needs that class of characters
@@ -1544,6 +1699,14 @@ def shrink(case, still_fails):
             cand = _sanitize_case(cur, cls)
             if cand != cur and still_fails(cand):
                 cur = cand
+    # plainer containers wherever the failure does not depend on their class: plain tuples, else plain lists
+    for kind in ("tuple", "list"):
+        cand = _recontain_case(cur, kind)
+        if cand == cur:
+            break
+        if still_fails(cand):
+            cur = cand
+            break
     if cur["level"] == "unit":
         for i, j in enumerate(cur["jobs"]):
             c = _canonical_out(j["out"], m)
@@ -1744,20 +1907,26 @@ def corpus_cases():
 
 
 def run(ck):
-    ck.rule = ("unit: 1-8 constructed HPOJobs (six return forms x success / 'F..' / nan / +-inf / nan-in-tuple, varying metadata "
+    ck.rule = ("multi-objective outputs come in a plain tuple (half), a list, a namedtuple, a user's subclass of tuple or of list, as the "
+               "plain return value or inside the dict / profiled forms; "
+               "unit: 1-8 constructed HPOJobs (six return forms x success / 'F..' / nan / +-inf / nan-in-tuple, varying metadata "
                "key sets, shuffled finishing order, CANCELLED jobs; hyperparameter names, categorical values, failure labels, metadata "
                "keys and values with commas, quotes, LF, lone CR, CRLF, non-ASCII) dumped in batches of 1-4 with hold / flush / mid-run "
                "flush / preset num_objective / the deprecated dump_evals; search: histories of 1-3 Search objects (RandomSearch) on one "
                "log_dir, each with a fresh evaluator / a plain async or sync callable / the previous Search's Evaluator instance (or all "
                "constructed before the first call), 1-3 search() calls each (max_evals 0 included, max_evals_strict, a few timed-out "
-               "searches), scripted outputs, run-functions that wait some ms, 1-4 serial workers, optional @profile; csv: random cell "
+               "searches; every 9th history has a Search object on the used log_dir whose calls finish NO evaluation, half of them "
+               "followed by one that finishes some), scripted outputs, run-functions that wait some ms, 1-4 serial workers, optional @profile; csv: random cell "
                "grids through csv.writer and random character soup through csv.reader; malformed outputs go to the standardize_output "
                "stream; non-trivial = at least 2 finished jobs with both a failure and a success")
     ck.assumptions = [
         "ints are < 2^53 in magnitude: float(output) is then exact; Python ints beyond the int64 range make np.isfinite / "
         "np.negative raise in several places of the NumPy-based pipeline and ints beyond the float range cannot be converted at all "
         "(OverflowError in standardize_output): outside the numeric range the code supports, not generated",
-        "tuple/list objectives have >= 2 components and one arity per search (the property's quantifier)",
+        "tuple/list objectives have >= 2 components and one arity per search (the property's quantifier); 'tuple/list' = any instance "
+        "of tuple or list; a NumPy array is not a supported return form (HPOJob.standardize_output rejects it: TypeError)",
+        "a search() call in which no evaluation of its Search object has finished has the empty set of evaluations to show: it must "
+        "not return rows (the table of an earlier search on the log_dir is that search's, kept in a backup file)",
         "metadata given as a list of pairs, bool/bytes objectives, empty metadata keys are not generated",
         "np.argsort inside non_dominated_set returns a permutation (observed and passed to the model)",
         "str(number) (repr(float), decimal int) is observed and passed to the model as the text of numeric cells; a case in "
@@ -1771,6 +1940,7 @@ def run(ck):
     ]
     rng = ck.rng
     collect = []
+    t_start = __import__("time").time()
     # malformed / standardize stream
     std_cases = list(MALFORMED)
     for _ in range(ck.pick(60, 400)):
@@ -1785,6 +1955,11 @@ def run(ck):
             std_cases += [v, (v, 1.0), {"objective": v}, {"objective": [2.0, v], "metadata": {"a": 1}}, {"output": v, "metadata": {}}]
     for v in (3, True, np.int64(4), np.int32(-3)):
         std_cases += [v, (v, 1.0), {"objective": v}]
+    for kind in SEQ_KINDS:  # every container class in every form, finite and with a non-finite component
+        for xs in ((1.5, 2), (1.0, float("nan"), 3.0)):
+            v = make_seq(kind, xs)
+            std_cases += [v, {"objective": v}, {"objective": v, "metadata": {"a": 1}}, {"output": v, "metadata": {}},
+                          {"output": {"objective": v, "metadata": {"b": 2}}, "metadata": {"a": 1}}]
     for v in EXTREMES:
         std_cases += [v, (v, 1.5e308), {"objective": v}, {"output": (v, v), "metadata": {}}]
     std_reqs = [{"op": "std", "out": enc(_plain_num(x))} for x in std_cases]
@@ -1798,7 +1973,7 @@ def run(ck):
         force = "fail-first" if t % 7 == 0 else None
         check_unit(ck, None, gen_unit_case(rng, force), collect)
     for t in range(n_search):
-        force = "fail-first" if t % 6 == 0 else None
+        force = "fail-first" if t % 6 == 0 else "idle-search" if t % 9 == 4 else None
         check_search(ck, None, gen_search_case(rng, force), collect)
     for t in range(ck.pick(2, 12)):
         ck.count("search:timeout")
@@ -1825,9 +2000,15 @@ def run(ck):
                 ck.mismatch(case, {"impl": got, "model": rep})
         elif got["err"] not in ERRMAP[rep["err"]]:
             ck.mismatch(case, {"impl": got, "model": rep})
+    import time
+
+    t0 = time.time()
     _process(ck, collect)
     part_csv(ck, [obs.get("raw_text") for level, case, obs, tags, viol in collect if level == "unit"])
+    t1 = time.time()
     _shrink_failures(ck)
+    ck.extra_cov["timing_s"] = {"real code (all cases)": round(t0 - t_start, 1), "Lean driver + comparison + csv layer": round(t1 - t0, 1),
+                                f"shrinking {len(ck.failures)} reported case(s)": round(time.time() - t1, 1)}
 
 
 def _shrink_failures(ck):
